@@ -113,6 +113,8 @@ int main(void) {
     printf("Definition lock_open_excl : bool := %s.\n", B(open_flags & O_EXCL));
     printf("Definition lock_open_trunc : bool := %s.\n", B(open_flags & O_TRUNC));
     printf("Definition lock_create_mode : N := %u.\n", (unsigned) open_mode & 07777);
+    printf("(* access mode of that open: 0 = O_RDONLY, 1 = O_WRONLY, 2 = O_RDWR *)\n");
+    printf("Definition lock_open_access : N := %d.\n", (open_flags & O_ACCMODE) == O_RDONLY ? 0 : (open_flags & O_ACCMODE) == O_WRONLY ? 1 : 2);
     printf("(* first fcntl() on the lock file *)\n");
     printf("Definition lock_cmd_nonblocking : bool := %s.\n", B(first_cmd == F_SETLK));
     printf("Definition lock_type_exclusive : bool := %s.\n", B(l_type == F_WRLCK));
